@@ -307,6 +307,8 @@ def run_history(hist, workdir, hid):
                 after = {o: snapshot(x, users[o]) for o, x in live.items()}
                 rec.update({'q': op['q'], 'outcome': obs[0],
                             'raised': obs[1] if obs[0] == 'raise' else None})
+                # FEMData.__init__ binds nodal_data['NODE'] to the node table itself
+                rec['node_detached'] = bool('NODE' in fd.nodal_data and fd.nodal_data['NODE'] is not fd.nodes)
                 todo.append(('query', rec, raw, op, obs, obs_b))
                 rec['changed'] = [f'{o}:{key}' for o in before for key in before[o]
                                   if before[o][key] != after[o].get(key)]
@@ -328,6 +330,7 @@ def run_history(hist, workdir, hid):
                 rec.update({'e': e, 'raised': r2})
                 ch = [f'{o}:{key}' for o in before for key in before[o] if before[o][key] != after[o].get(key)]
                 rec['changed'] = ch
+                rec['changed_other'] = [c for c in ch if not c.startswith(f"{op['o']}:")]
                 todo.append(('effect', rec, raw, op, (r2, after[op['o']]), users[op['o']]))
             elif k == 'derive':
                 fd = live.get(op['o'])
